@@ -265,6 +265,9 @@ class Explorer:
             out.append(b)
             if verdict == "yes":
                 break
+        if not out and not any(l == "exc" for _, l in node.out):
+            # a statement the CFG gives no exception edge (no enclosing try): the exception leaves the function
+            out.append(self.cfg.raise_exit)
         return out
 
     def key_of(self, e):
@@ -768,6 +771,13 @@ class Explorer:
         except AnalysisError:
             return UNKNOWN
         vals = []
+        if outs and all(o.kind == "raise" for o in outs):
+            names_ = set(str(o.detail) for o in outs)
+            if len(names_) == 1 and all(isinstance(o.detail, str) and o.env.get("__raised__") == o.detail and not any(p.always_raises for p in o.path) for o in outs):
+                # the evaluation of the callee's own statements raises that exception for this valuation, whatever path it
+                # takes (a rule-supplied atom that raises, int(''), a missing key): so does the call.  (Explicit `raise`
+                # statements stay undecided: an abstract method's NotImplementedError says nothing about the override.)
+                raise EvalRaise(names_.pop())
         for o in outs:
             if o.kind != "return":
                 return UNKNOWN
@@ -1274,6 +1284,8 @@ class Explorer:
                     if p.always_raises:
                         detail = p.raised or ast.unparse(p.ast)
                         break
+                if detail is None and env.get("__raised__"):
+                    detail = env["__raised__"]        # (raised by the evaluation of a statement, not by a `raise`)
                 outcomes.append(Outcome("raise", detail, env, events, path))
                 continue
             if node is g.noreturn:
@@ -1370,7 +1382,14 @@ class Explorer:
                 env2 = dict(env2)
                 exc_name = env2.pop("__raise__")
                 for b in self._route_exc(node, exc_name):
-                    stack.append((b, env2, events, path, None))
+                    env3 = env2
+                    if b.kind != "handler":
+                        env3 = dict(env2)
+                        env3["__raised__"] = exc_name
+                    elif "__raised__" in env2:
+                        env3 = dict(env2)
+                        env3.pop("__raised__")
+                    stack.append((b, env3, events, path, None))
                 continue
             for b, l in node.out:
                 if only_label is not None and l != only_label:
